@@ -2,7 +2,7 @@
 """Build /verif/seeded/README.md and update every seeded/<name>/meta.json from result.txt."""
 import glob, json, os, re
 rows = []
-for d in sorted(glob.glob('/verif/seeded/C*-*')) + sorted(glob.glob('/verif/seeded/r[34]-C*-*')):
+for d in sorted(glob.glob('/verif/seeded/C*-*')) + sorted(glob.glob('/verif/seeded/r[3-9]-C*-*')):
     name = os.path.basename(d)
     res = open(os.path.join(d, 'result.txt')).read() if os.path.exists(os.path.join(d, 'result.txt')) else ''
     try:
@@ -29,7 +29,7 @@ for d in sorted(glob.glob('/verif/seeded/C*-*')) + sorted(glob.glob('/verif/seed
                 kinds[cur].append(m.group(1))
     confirmed = bool(suite and suite.group(1) == '57' and suite.group(2) == '0' and (('C++ program, see meta.json' in res) or (dw and dw.group(1) != '0' and dn and dn.group(1) == '0')))
     meta.update({
-        'breaks_property': meta.get('property', name.replace('r3-', '').replace('r4-', '')[:3]),
+        'breaks_property': meta.get('property', re.sub(r'^r\d-', '', name)[:3]),
         'confirmed_by_verifier': {
             'repo_head': (re.search(r'repo_head=(\w+)', res) or [None, None])[1],
             'existing_suite_with_patch': f"{suite.group(1)} passed, {suite.group(2)} failed" if suite else 'not run',
